@@ -390,3 +390,68 @@ func lemmaC07_roundtrip_DeviceTimeAnsPayload(v DeviceTimeAnsPayload) {
 	verifAssert(err2 == nil, "accepted")
 	verifAssert(w.TimeSinceGPSEpoch <= v.TimeSinceGPSEpoch && v.TimeSinceGPSEpoch-w.TimeSinceGPSEpoch < 3906250, "equal-to-resolution")
 }
+
+// ---------------------------------------------------------------------------
+// C08: accepted frames are canonical -- every byte string the frame decoder accepts
+// (reserved MHDR bits zero) re-encodes without error to exactly the same bytes.
+// One lemma per message-type group; together they cover all 8 MTypes.
+// ---------------------------------------------------------------------------
+
+func lemmaC08_canonical(data []byte) {
+	var p PHYPayload
+	if err := p.UnmarshalBinary(data); err != nil {
+		return
+	}
+	if data[0]&0x1c != 0 {
+		return
+	}
+	b, err := p.MarshalBinary()
+	verifAssert(err == nil, "reencodes")
+	if err != nil {
+		return
+	}
+	verifAssert(len(b) == len(data), "same-length")
+	verifAssert(bytesEqualVerif(b, data), "canonical")
+}
+
+func lemmaC08_canonical_JoinRequest(data []byte) {
+	if len(data) > 0 && MType(data[0]>>5) == JoinRequest {
+		lemmaC08_canonical(data)
+	}
+}
+
+func lemmaC08_canonical_JoinAccept(data []byte) {
+	if len(data) > 0 && MType(data[0]>>5) == JoinAccept {
+		lemmaC08_canonical(data)
+	}
+}
+
+func lemmaC08_canonical_Data(data []byte) {
+	if len(data) > 0 && MType(data[0]>>5) >= UnconfirmedDataUp && MType(data[0]>>5) <= ConfirmedDataDown {
+		lemmaC08_canonical(data)
+	}
+}
+
+func lemmaC08_canonical_RejoinRequest(data []byte) {
+	if len(data) > 0 && MType(data[0]>>5) == RejoinRequest {
+		lemmaC08_canonical(data)
+	}
+}
+
+func lemmaC08_canonical_Proprietary(data []byte) {
+	if len(data) > 0 && MType(data[0]>>5) == Proprietary {
+		lemmaC08_canonical(data)
+	}
+}
+
+func bytesEqualVerif(a, b []byte) bool {
+	if len(a) != len(b) {
+		return false
+	}
+	for i := range a {
+		if a[i] != b[i] {
+			return false
+		}
+	}
+	return true
+}
